@@ -27,6 +27,7 @@ verus! {
 //@part registry_types
 //@part lookup
 //@part canon
+//@part aliases
 //@autoslots
 } // verus!
 fn main() {}
